@@ -157,6 +157,7 @@ pub fn run_case(case: &Case) -> Outcome {
         "ops" => k_ops(case),
         "structure" => k_structure(case),
         "scratchlen" => k_scratchlen(case),
+        "histscratch" => k_histscratch(case),
         "altnum" => k_altnum(case),
         other => Outcome::skip(format!("unknown case kind {}", other)),
     }
